@@ -75,6 +75,18 @@ func (t *TextT) UnmarshalText(b []byte) error {
 	return nil
 }
 
+// EmbL and EmbR both embed EmbA: embedding both makes EmbA's fields reachable twice at the same depth
+// (ambiguous selectors: nobody owns the keys).
+type EmbL struct {
+	EmbA
+	LOnly int8 `nbt:"lonly"`
+}
+
+type EmbR struct {
+	EmbA
+	ROnly int8 `nbt:"ronly"`
+}
+
 // SharedPtr holds ONE *EmbA several times (two fields and two list elements point to the same struct):
 // a value that is a DAG, not a tree, and not a cycle.
 type SharedPtr struct {
@@ -104,6 +116,10 @@ func init() {
 		{Name: "EmbA", Embedded: true, T: &TD{K: KNamed, Name: "EmbA"}}, {Name: "Q", Tag: "q", T: &TD{K: KU8}}}}}
 	Named["EmbDeeper"] = &NamedType{Type: reflect.TypeOf(EmbDeeper{}), TD: &TD{K: KStruct, Fields: []FD{
 		{Name: "EmbDeep", Embedded: true, T: &TD{K: KNamed, Name: "EmbDeep"}}, {Name: "R", Tag: "r", T: &TD{K: KF64}}}}}
+	Named["EmbL"] = &NamedType{Type: reflect.TypeOf(EmbL{}), TD: &TD{K: KStruct, Fields: []FD{
+		{Name: "EmbA", Embedded: true, T: &TD{K: KNamed, Name: "EmbA"}}, {Name: "LOnly", Tag: "lonly", T: &TD{K: KI8}}}}}
+	Named["EmbR"] = &NamedType{Type: reflect.TypeOf(EmbR{}), TD: &TD{K: KStruct, Fields: []FD{
+		{Name: "EmbA", Embedded: true, T: &TD{K: KNamed, Name: "EmbA"}}, {Name: "ROnly", Tag: "ronly", T: &TD{K: KI8}}}}}
 	Named["MethStr"] = &NamedType{Type: reflect.TypeOf(MethStr("")), TD: &TD{K: KStr}}
 	Named["PlainStr"] = &NamedType{Type: reflect.TypeOf(PlainStr("")), TD: &TD{K: KStr}}
 	Named["PlainInt"] = &NamedType{Type: reflect.TypeOf(PlainInt(0)), TD: &TD{K: KI32}}
